@@ -69,3 +69,17 @@ func Go(f func()) {
 
 	go f()
 }
+
+// YieldHook, if set by the harness, is called after every release of a lock: a
+// point at which the harness may let another of its goroutines run.
+var YieldHook func()
+
+// Release releases a lock and then gives the harness a scheduling point.  The
+// scratch copy calls it in place of x.Unlock() / x.RUnlock() (also deferred).
+func Release(unlock func()) {
+	unlock()
+
+	if h := YieldHook; h != nil {
+		h()
+	}
+}
